@@ -18,6 +18,7 @@ import (
 	"fmt"
 	"os"
 	"runtime/debug"
+	"runtime/pprof"
 	"sort"
 	"strconv"
 	"strings"
@@ -434,7 +435,13 @@ type span struct {
 
 // arcMask runs the real feature scan + masker and recovers, by aligning input and masked output,
 // which byte ranges of the input were replaced by which placeholder.
-func arcMask(s string) (m string, masks []sqlutil.StringMask, spans []span, dash, block bool, aligned bool) {
+//
+// A placeholder normally stands for its mask's Original, which must then be the text at the site. When it
+// is not, or when the placeholder was already met (deduplicated identifier placeholder: Original is the
+// text of its FIRST site and may be a mere prefix of what stands here), the site's extent is taken from
+// the reference token starting there, so that the per-site name oracle and the round-trip oracle — not an
+// unspecific alignment failure — report what is wrong with that site.
+func arcMask(s string, L *lexed) (m string, masks []sqlutil.StringMask, spans []span, dash, block bool, aligned bool) {
 	hq, dash, block := api.VerifSQLFeatures(s)
 	m, masks = sqlutil.MaskStringLiterals(s, hq)
 	byPH := make(map[string]int, len(masks))
@@ -451,11 +458,34 @@ func arcMask(s string) (m string, masks []sqlutil.StringMask, spans []span, dash
 		// originals never start with '_' so a placeholder here must stand for a masked range
 		ph := placeholderAt(m, j)
 		k, ok := byPH[ph]
-		if ph == "" || !ok || !strings.HasPrefix(s[i:], masks[k].Original) || masks[k].Original == "" {
+		if ph == "" || !ok || masks[k].Original == "" {
 			return m, masks, spans, dash, block, false
 		}
-		spans = append(spans, span{i, i + len(masks[k].Original), masks[k].Identifier, ph})
-		i += len(masks[k].Original)
+		e := i + len(masks[k].Original)
+		again := false // a later site of a placeholder already met: Original is the FIRST site's text
+		for _, sp := range spans {
+			if sp.ph == ph {
+				again = true
+			}
+		}
+		if again || !strings.HasPrefix(s[i:], masks[k].Original) {
+			re := -1
+			if L != nil {
+				for _, t := range L.toks {
+					if t.s == i && isSpanKind(t.k) {
+						re = t.e
+					}
+				}
+			}
+			switch {
+			case re >= 0:
+				e = re
+			case !strings.HasPrefix(s[i:], masks[k].Original):
+				return m, masks, spans, dash, block, false
+			}
+		}
+		spans = append(spans, span{i, e, masks[k].Identifier, ph})
+		i = e
 		j += len(ph)
 	}
 	return m, masks, spans, dash, block, i == len(s)
@@ -482,6 +512,7 @@ type verdict struct {
 	detail     string
 	nontrivial bool
 	fromMasks  int
+	sharedPH   bool // one identifier placeholder stands for two or more sites
 }
 
 func ctxAt(L lexed, pos int) string {
@@ -500,8 +531,21 @@ func ctxAt(L lexed, pos int) string {
 func judge(s string) verdict { return judgeL(s, refLex(s)) }
 
 func judgeL(s string, L lexed) verdict {
+	v, fails := judgeAll(s, L)
+	if len(fails) > 0 {
+		v.kind, v.detail = fails[0].kind, fails[0].detail
+	}
+	return v
+}
+
+type failure struct{ kind, detail string }
+
+// judgeAll evaluates every oracle that can still be evaluated and returns all failures in the fixed
+// oracle order (a span disagreement ends the evaluation: the later oracles are stated per agreed span;
+// the composed pipeline is not reported next to a round-trip failure it merely repeats).
+func judgeAll(s string, L lexed) (v verdict, fails []failure) {
 	if L.incomplete != "" {
-		return verdict{kind: "skip", detail: L.incomplete}
+		return verdict{kind: "skip", detail: L.incomplete}, nil
 	}
 	var ref []rtok
 	nontrivial := false
@@ -513,11 +557,12 @@ func judgeL(s string, L lexed) verdict {
 			nontrivial = true
 		}
 	}
-	v := verdict{nontrivial: nontrivial}
-	m, masks, spans, dash, block, aligned := arcMask(s)
+	v = verdict{nontrivial: nontrivial}
+	fail := func(kind, detail string) { fails = append(fails, failure{kind, detail}) }
+	m, masks, spans, dash, block, aligned := arcMask(s, &L)
 	if !aligned {
-		v.kind, v.detail = "mask-align", fmt.Sprintf("masked output %q cannot be aligned with the input", m)
-		return v
+		fail("mask-align", fmt.Sprintf("masked output %q cannot be aligned with the input", m))
+		return
 	}
 	// (1) masked ranges == reference literal / quoted-identifier ranges
 	for k := 0; k < len(spans) || k < len(ref); k++ {
@@ -533,37 +578,67 @@ func judgeL(s string, L lexed) verdict {
 		case a != nil && r != nil && a.s == r.s && a.e == r.e && a.ident == (r.k == kQIdent):
 			continue
 		case a != nil && (r == nil || a.s < r.s):
-			v.kind = "mask-extra@" + ctxAt(L, a.s)
-			v.detail = fmt.Sprintf("Arc masks bytes [%d,%d) %q where DuckDB's lexer has no literal/quoted identifier starting (reference context: %s)", a.s, a.e, s[a.s:a.e], ctxAt(L, a.s))
+			fail("mask-extra@"+ctxAt(L, a.s), fmt.Sprintf("Arc masks bytes [%d,%d) %q where DuckDB's lexer has no literal/quoted identifier starting (reference context: %s)", a.s, a.e, s[a.s:a.e], ctxAt(L, a.s)))
 		case r != nil && (a == nil || r.s < a.s):
-			v.kind = "mask-missed@" + kindName[r.k]
-			v.detail = fmt.Sprintf("the %s %q at [%d,%d) is not masked", kindName[r.k], s[r.s:r.e], r.s, r.e)
+			fail("mask-missed@"+kindName[r.k], fmt.Sprintf("the %s %q at [%d,%d) is not masked", kindName[r.k], s[r.s:r.e], r.s, r.e))
 		case a.e > r.e:
-			v.kind = "mask-overrun@" + kindName[r.k]
-			v.detail = fmt.Sprintf("the %s %q ends at %d for DuckDB but Arc masks up to %d (%q)", kindName[r.k], s[r.s:r.e], r.e, a.e, s[a.s:a.e])
+			fail("mask-overrun@"+kindName[r.k], fmt.Sprintf("the %s %q ends at %d for DuckDB but Arc masks up to %d (%q)", kindName[r.k], s[r.s:r.e], r.e, a.e, s[a.s:a.e]))
 		case a.e < r.e:
-			v.kind = "mask-underrun@" + kindName[r.k]
-			v.detail = fmt.Sprintf("the %s %q ends at %d for DuckDB but Arc's mask stops at %d (%q)", kindName[r.k], s[r.s:r.e], r.e, a.e, s[a.s:a.e])
+			fail("mask-underrun@"+kindName[r.k], fmt.Sprintf("the %s %q ends at %d for DuckDB but Arc's mask stops at %d (%q)", kindName[r.k], s[r.s:r.e], r.e, a.e, s[a.s:a.e]))
 		default:
-			v.kind = "mask-class@" + kindName[r.k]
-			v.detail = fmt.Sprintf("%q is a %s for DuckDB but Arc classifies it identifier=%v", s[r.s:r.e], kindName[r.k], a.ident)
+			fail("mask-class@"+kindName[r.k], fmt.Sprintf("%q is a %s for DuckDB but Arc classifies it identifier=%v", s[r.s:r.e], kindName[r.k], a.ident))
 		}
-		return v
+		return
 	}
-	// (1b) identifier placeholders resolve to the unquoted name DuckDB sees
+	for i, a := range spans {
+		for _, b := range spans[:i] {
+			if a.ident && a.ph == b.ph {
+				v.sharedPH = true
+			}
+		}
+	}
+	// sites per placeholder, and whether one placeholder stands for sites that read differently
+	siteCount := func(ph string) (n int, differ bool) {
+		first := ""
+		for _, a := range spans {
+			if a.ph == ph {
+				if n == 0 {
+					first = s[a.s:a.e]
+				} else if s[a.s:a.e] != first {
+					differ = true
+				}
+				n++
+			}
+		}
+		return
+	}
+	// (1b) at every site, the identifier placeholder resolves to the unquoted name DuckDB sees there
 	names := sqlutil.IdentifierNames(masks)
 	for k, a := range spans {
 		if a.ident {
 			if want := decodeSeg(s, ref[k]); names[a.ph] != want {
-				v.kind, v.detail = "ident-name", fmt.Sprintf("IdentifierNames gives %q for %q, DuckDB's name is %q", names[a.ph], s[a.s:a.e], want)
-				return v
+				kind := "ident-name"
+				n, differ := siteCount(a.ph)
+				if differ {
+					kind = "ident-name@shared-placeholder"
+				}
+				fail(kind, fmt.Sprintf("IdentifierNames gives %q for the site %q (placeholder %s, used at %d sites), DuckDB's name there is %q", names[a.ph], s[a.s:a.e], a.ph, n, want))
+				break
 			}
 		}
 	}
 	// (2) unmask(mask(s)) == s
+	roundtripOK := true
 	if back := sqlutil.UnmaskStringLiterals(m, masks); back != s {
+		roundtripOK = false
 		which := "other"
-		for _, mk := range masks {
+		for _, a := range spans { // one identifier placeholder standing for sites that read differently
+			if _, differ := siteCount(a.ph); a.ident && differ {
+				which = "ident-repeat"
+				break
+			}
+		}
+		for _, mk := range masks { // placeholder look-alikes typed by the user take precedence (known class)
 			if strings.Contains(s, mk.Placeholder) {
 				which = "ident-lookalike"
 				if !mk.Identifier {
@@ -572,8 +647,7 @@ func judgeL(s string, L lexed) verdict {
 				break
 			}
 		}
-		v.kind, v.detail = "roundtrip@"+which, fmt.Sprintf("mask gives %q, unmask gives %q instead of the input", m, back)
-		return v
+		fail("roundtrip@"+which, fmt.Sprintf("mask gives %q, unmask gives %q instead of the input", m, back))
 	}
 	// (3) comment stripping of the masked text (the order every call site uses) removes exactly the comments
 	var exp strings.Builder
@@ -591,24 +665,22 @@ func judgeL(s string, L lexed) verdict {
 		}
 	}
 	if got := api.VerifStripSQLComments(m, dash || block); got != exp.String() {
-		v.kind = "strip@" + stripDiag(s, L)
-		v.detail = fmt.Sprintf("stripSQLComments(%q) = %q, want %q (comments replaced by their separator, every other byte kept)", m, got, exp.String())
-		return v
+		fail("strip@"+stripDiag(s, L), fmt.Sprintf("stripSQLComments(%q) = %q, want %q (comments replaced by their separator, every other byte kept)", m, got, exp.String()))
 	}
 	// (4) FROM-in-function-body masking is reversible (precondition: literals already masked)
 	x := "trim(" + m + ")"
 	fm, fmasks := sqlutil.MaskFromKeywordsInFunctionBodies(x)
 	v.fromMasks = len(fmasks)
 	if back := sqlutil.UnmaskFromKeywordsInFunctionBodies(fm, fmasks); back != x {
-		v.kind, v.detail = "from-roundtrip", fmt.Sprintf("MaskFromKeywordsInFunctionBodies(%q) = %q, unmask gives %q", x, fm, back)
-		return v
+		fail("from-roundtrip", fmt.Sprintf("MaskFromKeywordsInFunctionBodies(%q) = %q, unmask gives %q", x, fm, back))
 	}
 	// (5) the composed pipeline as query.go runs it (normalizeSQLForShow = mask, strip, unmask, TrimSpace)
-	if got, want := api.VerifNormalizeSQLForShow(s), strings.TrimSpace(refStrip(s, L)); got != want {
-		v.kind, v.detail = "pipeline", fmt.Sprintf("normalizeSQLForShow = %q, want %q", got, want)
-		return v
+	if roundtripOK {
+		if got, want := api.VerifNormalizeSQLForShow(s), strings.TrimSpace(refStrip(s, L)); got != want {
+			fail("pipeline", fmt.Sprintf("normalizeSQLForShow = %q, want %q", got, want))
+		}
 	}
-	return v
+	return
 }
 
 // stripDiag names the structural feature of the reference comment that stripping got wrong.
@@ -1010,6 +1082,10 @@ func replay(run *ev.Run) {
 
 func main() {
 	run := ev.Start("C15", "exploration")
+	if pf := os.Getenv("VERIF_C15_PROF"); pf != "" { // manual experiments only
+		f, _ := os.Create(pf)
+		pprof.StartCPUProfile(f)
+	}
 	debug.SetGCPercent(800) // millions of short-lived strings, tiny live heap: trade memory for GC time
 	if run.Replay != "" {
 		replay(run)
@@ -1045,7 +1121,30 @@ func main() {
 	var mismatches []refMismatch
 	samples := ev.NewSamples(10)
 
+	// one single-threaded DuckDB instance per worker (no shared scheduler or catalog locks), opened once
+	// and used for every length and for the multi-token statements: opening an instance costs far more
+	// than the queries of a short length
+	pool := make([]*sql.Conn, workers)
+	{
+		var wg sync.WaitGroup
+		for w := range pool {
+			wg.Add(1)
+			go func(w int) {
+				defer wg.Done()
+				wdb, err := sql.Open("duckdb", "?threads=1")
+				if err != nil {
+					ev.Unbound("DuckDB open: " + err.Error())
+				}
+				if pool[w], err = wdb.Conn(context.Background()); err != nil {
+					ev.Unbound("DuckDB connection: " + err.Error())
+				}
+			}(w)
+		}
+		wg.Wait()
+	}
+
 	nA := len(alphabet)
+	t0 := time.Now()
 	for l := 0; l <= maxLen && atomic.LoadInt32(&complete) == 1; l++ { // simplest first
 		total := pow(nA, l)
 		const chunk = 2048
@@ -1053,20 +1152,9 @@ func main() {
 		var wg sync.WaitGroup
 		for w := 0; w < workers; w++ {
 			wg.Add(1)
-			go func() {
+			go func(w int) {
 				defer wg.Done()
-				// one single-threaded DuckDB instance per worker: no shared scheduler or catalog locks
-				wdb, err := sql.Open("duckdb", "?threads=1")
-				if err != nil {
-					ev.Unbound("DuckDB open: " + err.Error())
-				}
-				defer wdb.Close()
-				conn, err := wdb.Conn(context.Background())
-				if err != nil {
-					ev.Unbound("DuckDB connection: " + err.Error())
-				}
-				defer conn.Close()
-				d := &duck{conn: conn}
+				d := &duck{conn: pool[w]}
 				buf := make([]uint8, 16)
 				var lEnum, lJudged, lSkipped, lNontriv, lFrom, lFail int64
 				lOut := map[string]int64{}
@@ -1157,9 +1245,18 @@ func main() {
 				}
 				mismatches = append(mismatches, lMis...)
 				omu.Unlock()
-			}()
+			}(w)
 		}
 		wg.Wait()
+	}
+
+	// second input space: several quoted tokens per statement (multi.go)
+	t1 := time.Now()
+	p2 := runMulti(run, pool, samples)
+	fmt.Printf("C15 wall: token strings %.1fs, multi-token statements %.1fs\n", t1.Sub(t0).Seconds(), time.Since(t1).Seconds())
+	mismatches = append(mismatches, p2.mismatches...)
+	if !p2.complete {
+		complete = 0
 	}
 
 	if len(mismatches) > 0 {
@@ -1196,6 +1293,33 @@ func main() {
 		samples.Add(map[string]any{"input": in, "verdict": sig})
 	}
 
+	for _, c := range p2.classes {
+		s0, L0 := c.input, refLex(c.input)
+		_, f0 := judgeAll(s0, L0)
+		detail := ""
+		for _, f := range f0 {
+			if f.kind == c.kind {
+				detail = f.detail
+			}
+		}
+		for i := 0; i < 2; i++ { // replay twice: identical observations or it is the harness
+			_, f1 := judgeAll(s0, L0)
+			if fmt.Sprint(f1) != fmt.Sprint(f0) {
+				ev.Nondeterminism("judgeAll(" + strconv.Quote(s0) + ") differs between runs")
+			}
+		}
+		if detail == "" {
+			ev.Nondeterminism("the minimal input " + strconv.Quote(s0) + " no longer fails as " + c.kind)
+		}
+		m, masks := sqlutil.MaskStringLiterals(s0, true)
+		run.Violate(c.sig, detail, map[string]any{"input": s0, "oracle": c.kind, "space": "multi-token templates",
+			"arc_masked": m, "arc_masks": masks, "raw_inputs_in_class": c.count})
+		samples.Add(map[string]any{"input": s0, "verdict": c.sig})
+	}
+	for k, n := range p2.outcomes {
+		outcomes["multi: "+k] += n
+	}
+
 	okeys := make([]string, 0, len(outcomes))
 	for k := range outcomes {
 		okeys = append(okeys, k)
@@ -1205,7 +1329,7 @@ func main() {
 	for _, k := range okeys {
 		olist = append(olist, fmt.Sprintf("%s=%d", k, outcomes[k]))
 	}
-	fmt.Printf("C15 enumerated=%d judged=%d skipped_incomplete=%d nontrivial=%d failing=%d classes=%d from_masked=%d\n",
+	fmt.Printf("C15 token strings: enumerated=%d judged=%d skipped_incomplete=%d nontrivial=%d failing=%d classes=%d from_masked=%d\n",
 		enumerated, judged, skipped, nontrivial, failing, len(sigs), fromMasked)
 	fmt.Printf("C15 reference vs DuckDB %s: shapes_validated=%d unterminated_agreed=%d complete_no_unterminated=%d inconclusive=%d\n",
 		duckVersion, vs.shape, vs.incomplete, vs.noUnterminated, vs.inconclusive)
@@ -1214,22 +1338,49 @@ func main() {
 	for _, sig := range sigs {
 		fmt.Printf("C15 class %-60q raw=%d\n", sig, minCount[sig])
 	}
+	fmt.Printf("C15 multi-token: templates=%d tokens=%d cases=%d judged=%d skipped_incomplete=%d failing=%d classes=%d generator_truth_checked=%d shared_placeholder=%d casefold_equal_not_byte_equal=%d ident_equals_literal_content=%d from_masked=%d\n",
+		p2.nTemplates, len(p2.alpha), p2.cases, p2.judged, p2.skipped, p2.failing, len(p2.classes), p2.truthChecked, p2.sharedPH, p2.foldPairs, p2.identEqLiteral, p2.fromMasked)
+	fmt.Printf("C15 multi-token vs DuckDB: alias_statements_executed_names_equal=%d zero_length_identifier_refused=%d parse_trees_confirmed=%d not_parseable=%d not_submitted_in_this_tier=%d\n",
+		p2.execOK, p2.execZeroLen, p2.jsonOK, p2.jsonUnpr, p2.notParsed)
+	for _, c := range p2.classes {
+		fmt.Printf("C15 class %-60q raw=%d\n", c.sig, c.count)
+	}
 	if len(outcomes) < 2 {
 		fmt.Println("C15 WARNING: a single outcome over all cases (vacuous?)")
 	}
 
-	run.Coverage["evaluations"] = judged
-	run.Coverage["enumerated"] = enumerated
-	run.Coverage["skipped_lexically_incomplete"] = skipped
-	run.Coverage["distinct_nontrivial"] = nontrivial
-	run.Coverage["rule"] = fmt.Sprintf("every token sequence of length 0..%d over the %d-token alphabet (no token is a prefix of another (checked at start), so distinct sequences are distinct strings; enumerated shortest first); judged = the reference lexer finds no unterminated literal/identifier/dollar quote/comment; non-trivial = the reference finds at least one string literal, quoted identifier or comment to delimit", maxLen, nA)
+	run.Coverage["evaluations"] = judged + p2.judged
+	run.Coverage["enumerated"] = enumerated + p2.cases
+	run.Coverage["skipped_lexically_incomplete"] = skipped + p2.skipped
+	run.Coverage["distinct_nontrivial"] = nontrivial + p2.nontrivial
+	run.Coverage["rule"] = fmt.Sprintf("(1) every token sequence of length 0..%d over the %d-token alphabet (no token is a prefix of another (checked at start), so distinct sequences are distinct strings; enumerated shortest first); (2) every one of %d statement templates with 2..%d slots filled with every combination of the %d complete tokens of multi_token.tokens (distinct fillings are distinct statements); judged = the reference lexer finds no unterminated literal/identifier/dollar quote/comment; non-trivial = the reference finds at least one string literal, quoted identifier or comment to delimit", maxLen, nA, p2.nTemplates, p2.maxSlots, len(p2.alpha))
+	tnames := make([]string, 0, len(p2.perTemplate))
+	for _, t := range templates {
+		if n, ok := p2.perTemplate[t.name]; ok {
+			tnames = append(tnames, fmt.Sprintf("%s [%s] = %d", t.name, visible(strings.Join(t.fixed, "§")), n))
+		}
+	}
+	run.Coverage["token_strings"] = map[string]any{"enumerated": enumerated, "judged": judged, "skipped_lexically_incomplete": skipped, "nontrivial": nontrivial}
+	run.Coverage["multi_token"] = map[string]any{
+		"tokens": p2.alpha, "templates": tnames, "cases": p2.cases, "judged": p2.judged, "skipped_lexically_incomplete": p2.skipped,
+		"generator_ground_truth_equal_to_reference":                    p2.truthChecked,
+		"cases_with_one_placeholder_at_several_sites":                  p2.sharedPH,
+		"cases_with_identifiers_equal_under_case_folding_not_bytewise": p2.foldPairs,
+		"cases_with_identifier_spelled_like_a_literal_content":         p2.identEqLiteral,
+		"duckdb_alias_statements_executed_names_equal":                 p2.execOK,
+		"duckdb_zero_length_identifier_refused":                        p2.execZeroLen,
+		"duckdb_parse_trees_holding_every_name_and_value":              p2.jsonOK,
+		"duckdb_not_parseable_nothing_compared":                        p2.jsonUnpr,
+		"duckdb_not_submitted_in_this_tier":                            p2.notParsed,
+		"failing_inputs_before_minimisation":                           p2.failing,
+	}
 	run.Coverage["alphabet"] = alphabet
 	run.Coverage["max_len"] = maxLen
 	run.Coverage["exhaustive"] = complete == 1
 	run.Coverage["outcomes"] = olist
 	run.Coverage["failing_inputs_before_minimisation"] = failing
 	run.Coverage["from_keyword_masked_inputs"] = fromMasked
-	run.Coverage["reference_validated"] = vs.shape + vs.incomplete
+	run.Coverage["reference_validated"] = vs.shape + vs.incomplete + p2.execOK + p2.execZeroLen + p2.jsonOK
 	run.Coverage["reference_validated_detail"] = map[string]any{
 		"duckdb_version": duckVersion, "executed_shapes_value_and_name_equal": vs.shape, "unterminated_kind_agreed": vs.incomplete,
 		"complete_strings_without_unterminated_error": vs.noUnterminated, "inconclusive_other_error_first": vs.inconclusive,
@@ -1239,7 +1390,9 @@ func main() {
 	run.Assume("the unit of comparison for literals is the quoted segment: DuckDB joins 'a'<newline>'b' into one constant; Arc masking the two segments separately is accepted")
 	run.Assume("strings with an unterminated literal, quoted identifier, dollar quote or block comment (per the reference, agreed by DuckDB's error where it reaches the lexer error) are not judged")
 	run.Assume("comment stripping is judged on the masked text, the order every call site in query.go uses, with the has-comment flags of the real scanSQLFeatures; the documented separators are: line comment -> nothing (newline kept), block comment -> one space")
+	run.Assume("multi-token statements: two to four slots per template and the listed tokens only; in templates whose slots are separated by SQL text the generator's token boundaries are the ground truth and the reference lexer must reproduce them; DuckDB confirms by executed column names (alias-only statements) or by json_serialize_sql holding every decoded name/value (statements its grammar accepts); the other statements are judged against the reference alone")
 	run.Assume("the reference lexer is trusted only as far as DuckDB confirmed it: executable shapes SELECT [(]*<literal>[)]* [alias], SELECT 7 AS <name>, <word> <literal> (type-name error) and comment-only strings, plus unterminated-error agreement")
+	pprof.StopCPUProfile()
 	run.Finish()
 }
 
